@@ -44,6 +44,7 @@ const (
 	c23WrongType = "wrongtype"
 	c23Truncated = "truncated"
 	c23Empty     = "empty"
+	c23Partial   = "partial" // a well-formed reply that carries only some of the fields (absent = zero value)
 )
 
 type c23Reply struct {
@@ -54,6 +55,7 @@ type c23Reply struct {
 	Msg     string
 	Cut     int  // truncated: bytes kept of the msgpack body
 	TypeB   byte // wrongtype: the type byte used
+	Fields  int  // partial: bit set of the fields present (1 Result, 2 Message, 4 Keys, 8 PrimaryKey)
 }
 
 type c23OpCase struct {
@@ -102,6 +104,20 @@ func c23GenReply(rng *rand.Rand, pool [][]byte, list bool, kind string) c23Reply
 		if rng.Intn(5) == 0 {
 			rp.Msg = "truncated key list response, showing first 1 of 9 keys"
 		}
+	case c23Partial:
+		rp.Fields = rng.Intn(16)
+		if rp.Fields&1 == 0 {
+			// a failed reply that nevertheless lists keys: the statement does not say whether they count
+			rp.Fields &^= 4 | 8
+		}
+		perm := rng.Perm(len(pool))
+		nk := rng.Intn(len(pool) + 1)
+		for _, i := range perm[:nk] {
+			rp.Keys = append(rp.Keys, c23B64(pool[i]))
+		}
+		if nk > 0 {
+			rp.Primary = rp.Keys[rng.Intn(nk)]
+		}
 	case c23Failure:
 		rp.Msg = "scripted failure"
 		if rng.Intn(3) == 0 {
@@ -116,7 +132,7 @@ func c23GenReply(rng *rand.Rand, pool [][]byte, list bool, kind string) c23Reply
 func c23Gen(rng *rand.Rand, pool [][]byte) c23Case {
 	c := c23Case{Enc: rng.Intn(4) != 0, NodeKey: 1 + rng.Intn(3), P: 1 + rng.Intn(5)}
 	nOps := 1 + rng.Intn(3)
-	kinds := []string{c23Success, c23Success, c23Success, c23Failure, c23WrongType, c23Truncated, c23Empty, c23Silence}
+	kinds := []string{c23Success, c23Success, c23Success, c23Failure, c23WrongType, c23Truncated, c23Empty, c23Partial, c23Silence}
 	for o := 0; o < nOps; o++ {
 		var op c23OpCase
 		switch x := rng.Intn(10); {
@@ -180,6 +196,21 @@ func c23Gen(rng *rand.Rand, pool [][]byte) c23Case {
 func c23Encode(rp c23Reply, kind string) []byte {
 	body := wire.EncodeBody(&wire.NodeKeyResponse{Result: kind != c23Failure, Message: rp.Msg, Keys: rp.Keys, PrimaryKey: rp.Primary})
 	switch kind {
+	case c23Partial:
+		m := map[string]interface{}{}
+		if rp.Fields&1 != 0 {
+			m["Result"] = true
+		}
+		if rp.Fields&2 != 0 {
+			m["Message"] = "partial"
+		}
+		if rp.Fields&4 != 0 {
+			m["Keys"] = rp.Keys
+		}
+		if rp.Fields&8 != 0 {
+			m["PrimaryKey"] = rp.Primary
+		}
+		return append([]byte{wire.KeyResponse}, wire.EncodeBody(m)...)
 	case c23Empty:
 		return []byte{}
 	case c23WrongType:
@@ -310,6 +341,14 @@ func c23RunAgg(t *testing.T, c c23Case, pool [][]byte, seed int64) c23Result {
 				res.inconc = "puppet join: " + err.Error()
 				return
 			}
+		}
+		if seed%3 == 0 {
+			// a member that has departed (failed, not reaped yet): it is no cluster member any more and
+			// must not be counted or waited for
+			gone := cluster.FakeNode("departed", "10.0.1.200", 7946, nil)
+			nd.NotifyJoin(gone)
+			nd.NotifyLeave(gone)
+			res.classes["cases_with_a_departed_member_still_listed_as_failed"]++
 		}
 		time.Sleep(2 * time.Second)
 		synctest.Wait()
@@ -480,7 +519,7 @@ func c23RunAgg(t *testing.T, c c23Case, pool [][]byte, seed int64) c23Result {
 			step := fmt.Sprintf("op %d %s(%s) enc=%v members=%d replies=[%s] order=%v", oi, op.Kind, op.KeyDesc, c.Enc, members, strings.Join(sig, " "), op.Order)
 			res.trace = append(res.trace, fmt.Sprintf("%s -> NumNodes=%d NumResp=%d NumErr=%d err=%v keys{%s} primary{%s}", step, kr.NumNodes, kr.NumResp, kr.NumErr, o.err, c23MapStr(kr.Keys), c23MapStr(kr.PrimaryKeys)))
 			if kr.NumNodes != members {
-				res.inconc = fmt.Sprintf("%s: NumNodes=%d", step, kr.NumNodes)
+				res.viol, res.violKey = fmt.Sprintf("%s: NumNodes=%d, the cluster has %d members", step, kr.NumNodes, members), "numnodes"
 				return
 			}
 			wantErr := ref.Failures > 0 || ref.Replies < members
